@@ -578,6 +578,7 @@ def run(chk):
     _framefresh_rule(chk, prog)
     _envlazy_rule(chk, prog)
     _flagorder_rule(chk, prog)
+    _negzero_rule(chk, prog)
 
 
 def _asmrange_rule(chk, prog):
@@ -728,3 +729,41 @@ def _flagorder_rule(chk, prog):
                           "and a function that disasm produced is rejected or gets no slot for its rest argument" % (
                               x.text()[:50], m, late[0].text()[:50], late[0].loc))
     chk.floor(rule, 1, len(reads))
+
+
+def _negzero_rule(chk, prog):
+    """marshal writes a number that is a whole 32-bit value in the short integer form.  -0.0 passes the usual
+    `is it an int32` test and its integer image is +0, so a function constant -0.0 came back as 0 and
+    (/ x -0.0) computed +inf after a round trip.  The integer form is taken only where the sign bit was excluded."""
+    rule = "C09-NEGZERO"
+    chk.rule(rule, "marshal writes a number in the integer form only on paths that excluded -0.0 (sign bit tested, or the integer image is non-zero)")
+    fn = prog.need_func("marshal_one", "marsh.c")
+    chk.analysed(fn)
+    sites = []
+    for c in fn.calls("pushint"):
+        a = c.args[1] if len(c.args) > 1 else None
+        if a is not None and a.k == "cast" and any(y.k == "ref" and (y.t or "") == "double" for y in a.walk()):
+            sites.append(c)
+    if not sites:
+        raise AnalysisBroken("marshal_one: the integer short form for numbers was not found")
+    IN, T = flow.condition_facts(fn)
+    res = {}
+    for x, S in flow.states_at(fn, IN, T):
+        if x in sites:
+            def good(ps):
+                for (op, l, r, toks, ln, rn) in ps:
+                    if ln is not None and ("signbit" in ln.macro_names() or "signbit(" in l or "__builtin_signbit" in l) and op == "==" and (rn is None or rn.v == 0):
+                        return True
+                    if ln is not None and op == "!=" and rn is not None and rn.v == 0 and any(y.k == "ref" and (y.t or "") == "double" for y in ln.walk()):
+                        return True
+                return False
+            res[id(x)] = bool(S) and all(good(ps) for ps in S)
+    for c in sites:
+        chk.instance(rule)
+        if res.get(id(c)):
+            chk.ok(rule, "marshal_one: `%s` only for a value that is not -0.0" % c.text()[:40])
+        else:
+            chk.violation(rule, "marsh.c", "marshal_one", "negative-zero", c.loc,
+                          "`%s` is reached for -0.0 (it passes the int32 range test and its integer image is +0): the sign is lost, "
+                          "a function constant -0.0 comes back as 0 and (/ x -0.0) gives inf instead of -inf after a round trip" % c.text()[:40])
+    chk.floor(rule, 1, len(sites))
